@@ -72,7 +72,7 @@ REGISTRY = {
         jobs=lambda tier, seed: (
             [("vf.props.nonherm", "c05", c) for c in configs.hermitian_configs(tier, hermitian=False)]
             + [("vf.props.nonherm", "c05_vs_hermitian", dict(c, _vs=1, max_order=min(c["max_order"], 2) if (c.get("spectrum") in ("sym", "symdeg") and sum(c["sizes"]) >= 4) else c["max_order"]))
-               for c in configs.hermitian_configs(tier, hermitian=True) if c["max_order"] <= 3 or tier == "thorough"]
+               for c in configs.hermitian_configs(tier, hermitian=True) if (c["max_order"] <= 3 or tier == "thorough") and sum(c["sizes"]) <= 6]
             + [("vf.props.herm", "dtype_twin", c) for c in __import__("vf.props.herm", fromlist=["x"]).dtype_twin_configs(tier, False)]
         ),
         job_of_config=lambda cfg: ("vf.props.herm", "dtype_twin") if cfg.get("_job") == "dtype_twin" else ("vf.props.nonherm", "c05_vs_hermitian" if cfg.get("_vs") else "c05"),
